@@ -470,3 +470,36 @@ Broker.call = _broker_call
 Broker.mark_initial = _mark_initial
 Broker.replay_spec = _replay_spec
 Broker.oplog = None
+
+
+# ---------------------------------------------------------------- C10 oracle: balanced full stable partition
+def balanced_items(b, expect_owning_chunks, key_prefix='C10'):
+    """obligations: no pending migration; halves 0..2m-1 own avg+[i<rem] slots as compact lists; the others own nothing"""
+    items = []
+    chs = b.chunks()
+    m = expect_owning_chunks * 2
+    avg, rem = SLOT_NUM // m, SLOT_NUM % m
+    def wit(mo): return {'store': concretize(b.cluster_store(), mo)}
+    for ci, ch in enumerate(chs):
+        mig = b.fld(ch, 'ChunkStore', 'migrating_slots').v
+        stable = b.fld(ch, 'ChunkStore', 'stable_slots').v
+        for part in range(2):
+            h = ci * 2 + part
+            items.append(('no-pending-migration', key_prefix + '/pending-migration-left', len(mig.f[part].v.cells) == 0, wit))
+            so = stable.f[part].v
+            if h < m:
+                if so.variant == 0:
+                    items.append(('owning-half-has-slots', key_prefix + '/owning-half-empty', False, wit)); continue
+                rs = b.dec_ranges(b.fld(so.f[0].v, 'SlotRange', 'range_list').v)
+                tot = 0
+                for a, bb in rs: tot = tot + (bv(bb) - bv(a) + 1)
+                items.append(('balanced-count', key_prefix + '/unbalanced', bv(tot) == avg + (1 if h < rem else 0), wit))
+                for a, bb in rs:
+                    items.append(('range-wellformed', key_prefix + '/range-illformed', zand([z3.ULE(bv(a), bv(bb)), z3.ULT(bv(bb), SLOT_NUM)]), wit))
+                for (a, bb), (c, d) in zip(rs, rs[1:]):
+                    items.append(('ranges-compact', key_prefix + '/not-compact', z3.ULT(bv(bb) + 1, bv(c)), wit))
+                tagname = b.src.enums['SlotRangeTag'][b.fld(so.f[0].v, 'SlotRange', 'tag').v.variant]
+                items.append(('stable-tag', key_prefix + '/stable-with-tag', tagname == 'None', wit))
+            else:
+                items.append(('trailing-half-empty', key_prefix + '/trailing-chunk-owns-slots', so.variant == 0, wit))
+    return items
